@@ -238,9 +238,16 @@ pub fn check(seed: u64, case: &Kv, rep: &mut Report) {
     }
 }
 
-pub fn cases() -> Vec<Kv> {
+pub fn cases(thorough: bool) -> Vec<Kv> {
     let mut out = Vec::new();
-    for m in SIZES {
+    let mut sizes: Vec<usize> = SIZES.to_vec();
+    if thorough {
+        // every size in windows around the internal chunk boundaries
+        sizes.extend((4..=12).chain(58..=70).chain(122..=134).chain(190..=194));
+        sizes.sort_unstable();
+        sizes.dedup();
+    }
+    for m in sizes {
         for head in ["softmax3", "linear1", "linear3", "sigmoid2"] {
             for body in ["dense", "conv", "convpool", "skip", "loop"] {
                 for o in OBJ7 {
@@ -263,7 +270,7 @@ pub fn cases() -> Vec<Kv> {
 }
 
 pub fn run(ctx: &Ctx) -> Report {
-    let cs = cases();
+    let cs = cases(ctx.tier.thorough());
     let seed = ctx.seed;
     let chunks: Vec<&[Kv]> = cs.chunks(16).collect();
     let parts = par_map(&chunks, |_, c| {
